@@ -102,7 +102,7 @@ Definition pstep (acc : list stok) (t : stok) : list stok :=
     else if is_t typ TIDENT && eqs pv (s ".") then mkS Tclass (s "." ++ val) :: acc'     (* l.243 *)
     else if is_t typ TIDENT && starts (s ":") pv && negb (last_is 40 pv)
          then mkS (pseudo_ty pv) (pv ++ val) :: acc'                                     (* l.247 *)
-    else if is_t typ TFUNCTION && eqs val (s "not(") && eqs (s ":") pv
+    else if is_t typ TFUNCTION && eqs (normalize val) (s "not(") && eqs (s ":") pv
          then mkS Tnegation (s ":" ++ val) :: acc'                                       (* l.257 *)
     else if is_t typ TFUNCTION && starts (s ":") pv
          then mkS (pseudo_ty pv) (pv ++ val) :: acc'                                     (* l.260 *)
@@ -587,6 +587,8 @@ Definition opaque (v : str) : bool :=
   | c :: r => negb (N.eqb c 58)
               && negb ((N.eqb c 42 || N.eqb c 124 || N.eqb c 46) && match r with [] => true | _ => false end)
   end.
+Definition hashv (v : str) : bool :=        (* a HASH token value: starts with # *)
+  match v with c :: _ => N.eqb c 35 | [] => false end.
 Definition quoted (v : str) : bool :=       (* a STRING token value: starts with a quote *)
   match v with c :: _ => N.eqb c 34 || N.eqb c 39 | [] => false end.
 
@@ -606,7 +608,7 @@ Definition ok_expr (e : expr) : bool :=
   match e with [] => false | _ => forallb (fun p => ok_et (fst p) && ok_ws (snd p)) e end.
 Definition ok_pseudo (p : pseudo) : bool :=
   match p with
-  | PsId _ n => ident n
+  | PsId _ n => ident n && ident (lower n)     (* the lower-cased name is still an identifier *)
   | PsFn _ n w e => ident n && negb (eqs (lower n) (s "not")) && ok_ws w && ok_expr e
   end.
 (* does the machine treat the pseudo as a pseudo-element (after which only a combinator may follow)? *)
@@ -616,14 +618,14 @@ Definition ok_negarg (ns : ns_map) (a : negarg) : bool :=
   match a with
   | NaType q n => declared ns q && ident n
   | NaUniv q => declared ns q
-  | NaHash v => opaque v
+  | NaHash v => hashv v
   | NaClass n => ident n
   | NaAttr a => ok_attr ns a
   | NaPseudo p => ok_pseudo p
   end.
 Definition ok_simple (ns : ns_map) (x : simple) : bool :=
   match x with
-  | SHash v => opaque v
+  | SHash v => hashv v
   | SClass n => ident n
   | SAttr a => ok_attr ns a
   | SPseudo p => ok_pseudo p && negb (pseudo_is_element p)
